@@ -122,3 +122,14 @@ def update_values(d):
 
 def unit_transform(t):
     return t[:-1] == (1, 0, 0, 1, 0)
+
+
+class HReg:
+    def __init__(self, vals):
+        self.vals = vals
+
+
+def reg_bump(r, k):
+    # round 4 (C03 #4): clauses read the derived view `twice` (a lambda over the heap); beta_reduce=True
+    r.vals[k] = r.vals.get(k, 0) + 1
+    return r.vals[k]
